@@ -18,8 +18,8 @@ From JT.Proofs Require Import Server_proofs.
 
 (* ---------------- the JT808 server never dies ---------------- *)
 (* parse_all = false: default handlers; parse_all = true: handlers that Parse every body in the read
-   callback (README pattern) for the types whose Parse is modelled (0x0200 0x0704 0x0801 0x0102 0x1210
-   0x1211 0x1212); the other types are C03's obligation *)
+   callback (README pattern): location reports by the model of C08, the reply-path types by those of C06 /
+   C15 / C16, every other registered type by C03's checked model of protocol/model (Total_msgs.parse_msg) *)
 Theorem C10_808_no_crash : forall parse_all evs, outcome808 (run808 parse_all evs) <> Crash.
 Proof. exact no_crash_808. Qed.
 Print Assumptions C10_808_no_crash.
